@@ -90,7 +90,7 @@ def _term(ex, tag, t, env):
         if sfx == "none":
             return q, dict(cls="Literal", val=XSD_STRING), parts
         if sfx == "lang":
-            return q + "@" + SymStr(tuple("en") + tuple(_free(ex, tag + "_l", t.get("lang_k", 0), c_lang))), dict(cls="Literal", val=LANG_STRING), parts
+            return q + "@" + SymStr(tuple("en") + tuple(_free(ex, tag + "_l", t.get("lang_k", 0), c_lang)) + tuple(t.get("lang_post", ""))), dict(cls="Literal", val=LANG_STRING), parts
         if sfx == "dt_xsd":
             return q + "^^xsd:" + t.get("dt_local", "int"), dict(cls="Literal", val=XSD + t.get("dt_local", "int")), parts
         if sfx == "dt_iri":
@@ -414,6 +414,7 @@ def skeletons(tier):
         out.append(("int/%s/nl" % txt, dict(groups=groups, layout=[" ", " ", "\n", " ", " ", "\n"])))
     g_rebind = [(PN1, [(PN1, [PN1])]), ("PREFIX", ("e", "http://g.h/")), (PN1, [(PN1, [PN1])])]
     out.append(("rebind", dict(groups=g_rebind, layout=[" ", " ", " ", "\n", "\n", " ", " ", " ", "\n"])))
+    g_semi = [(PN1, [(PN1, [_lit([F])]), "TRAILING_SEMICOLON"])]
     g_reuse = [(PN1, [(PN1, [PN1])]), (PN1, [(PN1, [PN1, PN1])])]                   # names may repeat across statements
     for gname, groups in [("basic", g_basic), ("comma", g_comma), ("two", g_two), ("abs", g_abs), ("int", g_int), ("reuse", g_reuse)]:
         for lay in _variants(groups, 1 if tier == "quick" else 2):
@@ -422,7 +423,7 @@ def skeletons(tier):
     bodies = [[], [F], [F, F], [F, F, F], [E_Q], [F, E_Q], [E_Q, F], [E_B], [E_B, E_Q], [E_Q, E_B], [F, E_B], ["#", F], [" #", F], [F, " ;"], [F, " , "], [" . ", F]]
     if tier != "quick":
         bodies += [[F, F, F, F], [F, E_Q, F, F], [F, F, E_B, E_Q], [" #", F, F], [F, F, " #"], [E_B, E_B, F], [E_Q, " #", F]]
-    sfxs = [("none", {}), ("lang", {}), ("lang", {"lang_k": 1}), ("dt_xsd", {}), ("dt_iri", {}), ("dt_iri", {"dt_k": 1}), ("dt_pn", {"dt_k": 1})]
+    sfxs = [("none", {}), ("lang", {}), ("lang", {"lang_k": 1}), ("lang", {"lang_post": "-GB"}), ("lang", {"lang_post": "-419"}), ("dt_xsd", {}), ("dt_iri", {}), ("dt_iri", {"dt_k": 1}), ("dt_pn", {"dt_k": 1})]
     for body in bodies:
         bname = "".join("F" if x is None else {E_Q: "q", E_B: "b"}.get(x, x.replace(" ", "_")) for x in body) or "empty"
         for sname, kw in sfxs:
@@ -446,3 +447,59 @@ BOUNDS = {
              "escapes and '#', ';', ',', '.' pieces x 7 suffix forms x 4 line placements; @base with relative IRIs",
     "thorough": "as quick with <= 2 non-default separators (bounded-exhaustive over pairs of boundaries), literal bodies of <= 4 free characters, comments of 2 characters",
 }
+
+
+# ------------------------------------------------------------------------- out-of-dialect documents: must raise rather than yield triples
+
+RAW_DOCS = {
+    "anonymous-node": ["e:s", F, " e:p [ e:q e:o", F, " ] .\n"],
+    "collection": ["e:s", F, " e:p ( e:a", F, " e:b ) .\n"],
+    "multiline-string": ["e:s", F, ' e:p """multi', F, '\nline""" .\n'],
+    "single-quoted": ["e:s", F, " e:p 'x", F, "' .\n"],
+    "blank-node-property-list-subject": ["[ e:p e:o", F, " ] e:q e:r", F, " .\n"],
+    "sparql-style-prefix": ["PREFIX x: <http://x/>\nx:s", F, " e:p e:o .\n"],
+}
+
+
+def run_raw(res, name, findings=()):
+    shims.install()
+    pieces = RAW_DOCS[name]
+    ex = Explorer(max_paths=20000, path_ops=6000)
+
+    def fn(ex):
+        items = list("@prefix e: <http://e.f/> .\n")
+        for i, p in enumerate(pieces):
+            if p is None:
+                items.extend(_free(ex, "f%d" % i, 1, c_pn_rest))
+            else:
+                items.extend(p)
+        doc = SymStr(items)
+        try:
+            return doc, "OK", read_ttl(doc)
+        except Hang:
+            ex.stats["hangs"] += 1
+            return doc, "HANG", None
+        except HarnessError:
+            raise
+        except Exception as e:  # noqa
+            return doc, "EXC", e
+
+    def on_path(r, ex):
+        doc, tag, val = r
+        res["reach"] += 1
+        res["queries"] += 1
+        m = ex.model()
+        cdoc = doc.model_str(m)
+        if tag != "EXC" and len(res["violations"]) < 3:
+            res["violations"].append(dict(what="out-of-dialect Turtle (%s) was %s instead of being rejected" % (name, "read: %r" % (concretize(val[0], m),) if tag == "OK" else "not terminating"),
+                                          replay=dict(family="ttl", args=dict(doc=cdoc, expected=[], must_raise=True)), expected="an exception", observed=tag))
+        with shims.real_code():
+            ctag, cval = run_with_alarm(lambda: read_ttl(cdoc), 0.4)
+        if (ctag == "EXC") != (tag == "EXC"):
+            raise HarnessError("engine/impl disagreement on %r: symbolic %s vs concrete %s" % (cdoc, tag, ctag))
+        res["witnesses"] += 1
+        if len(res["samples"]) < 1:
+            res["samples"].append(dict(document=cdoc, result=ctag))
+
+    ex.explore(fn, on_path)
+    absorb_stats(res, ex)
